@@ -107,4 +107,31 @@ _tv("C27", "Ordered window functions for 0-2 partition columns and 1-2 order col
     "translation validation against an order-free window reference (z3), backends: real Pandas window realisation over the model, SQLite / PostgreSQL-model window SQL",
     "DESIGN.md §4 C27")
 
+_tv("C02", "As C01 with the real PostgreSQLModel (native RIGHT/FULL JOIN, NULLIF division, BIGINT cast, LN, CTE elimination on, use_with off): its SQL text is "
+    "interpreted under a PostgreSQL semantics MODEL and compared by z3 with the real Pandas executor over the pandas model. No PostgreSQL server exists "
+    "in the sandbox: counterexamples are replayed on SQLite >= 3.39 as stand-in engine and only those that reproduce there are reported.",
+    "translation validation under a documented-semantics model of PostgreSQL (z3 per-path equality); stand-in replay on SQLite",
+    "DESIGN.md §4 C02", "PARTIAL: the property's observation point (execution on PostgreSQL 16) is unreachable here; PG-only disagreements are listed as model-only in evidence.")
+_tv("C07", "Composite pipelines built by the real composition code (a >> b, DataOpArrow composition, replace_leaves, eval with a map of pipelines) versus "
+    "sequential application on materialised results, over symbolic inputs through the real Pandas executor on the pandas model (z3 per-path equality); "
+    "composition must not raise, all forms are ==, associativity by == and by meaning, dom/cod match.",
+    "translation validation of composition: composite vs sequential pipelines executed symbolically (z3), structural obligations by construction",
+    "DESIGN.md §4 C07")
+_tv("C10", "Perturbation: the same backend on symbolic tables that share the cells of columns_used()-reported columns and have independent symbolic cells "
+    "elsewhere must return equal results (z3, all values); narrowing: the pipeline rebuilt on descriptions narrowed to the reported columns agrees on "
+    "restricted inputs. Backends: Pandas executor over the model, SQLite SQL text.",
+    "relational (2-safety) symbolic execution: shared vs independent symbolic cells, z3 per-path equality", "DESIGN.md §4 C10")
+_tv("C18", "sem(P)(T) versus sem(P)(row-permuted T) and sem(P)(T with a non-default / duplicate / RangeIndex-offset index) on the same backend over symbolic "
+    "tables; z3 decides multiset equality (sequence equality after order_rows) per structural path; index labels and label alignment are modelled.",
+    "relational symbolic execution under input permutation / re-indexing (z3 per-path equality)", "DESIGN.md §4 C18")
+CHECKS["C19"] = dict(
+    category="other",
+    technique="path-exhaustive symbolic execution of the real Pandas executor on caller-owned model frames with in-place-API tracking; second evaluation compared by z3",
+    text="On every solver-feasible structural path of the real Pandas executor (over the pandas model) no in-place API touches a caller-owned frame object, and "
+         "evaluating the same pipeline object twice on the same frames gives equal tables (z3, all cell values) with unchanged pipeline text; to_sql twice is "
+         "identical. Counterexamples are replayed on real pandas comparing values, dtypes, columns and index.",
+    note="Bounded programs/rows (see evidence). Mutation tracking is part of the pandas model: an unmodelled in-place API raises Unmodelled (counted). "
+         "dtypes are compared on real replay only. Trusted: z3, forksym, the pandas model.",
+    design_ref="DESIGN.md §4 C19", engine="forksym+z3 over sympd model")
+
 NOT_YET = {}
